@@ -149,19 +149,22 @@ def pNumTail (neg : Bool) (ipart : Text) (r : Text) : JV × Text :=
   if f || e then (.float, r2)
   else (.int (if neg then - Int.ofNat (decVal ipart) else Int.ofNat (decVal ipart)), r2)
 
+/-- `(0|[1-9]\d*)(\.\d+)?([eE][-+]?\d+)?` after the optional sign -/
+def pUnsigned (neg : Bool) (r : Text) : Option (JV × Text) :=
+  match r with
+  | [] => none
+  | c :: r1 =>
+    if c == 48 then some (pNumTail neg [48] r1)
+    else if 49 ≤ c && c ≤ 57 then
+      let (ds, r2) := takeDigits r
+      some (pNumTail neg ds r2)
+    else none
+
 /-- `-?(0|[1-9]\d*)(\.\d+)?([eE][-+]?\d+)?` -/
 def pNumber (s : Text) : Option (JV × Text) :=
-  let (neg, r) := match s with
-    | 45 :: r => (true, r)
-    | _ => (false, s)
-  match r with
-  | 48 :: r1 => some (pNumTail neg [48] r1)
-  | c :: _ =>
-    if 49 ≤ c && c ≤ 57 then
-      let (ds, r1) := takeDigits r
-      some (pNumTail neg ds r1)
-    else none
+  match s with
   | [] => none
+  | c :: r => if c == 45 then pUnsigned true r else pUnsigned false s
 
 /-- the body of a string up to the closing quote (strict: no control characters; backslash escapes
 are outside the model and make the parse fail) -/
@@ -201,24 +204,33 @@ def pLiteral (s : Text) : Option (JV × Text) :=
   | some r => some (.float, r)
   | none => none
 
+/-- a literal or a number (whatever does not start a string, an array or an object) -/
+def pScalar (s : Text) : Option (JV × Text) :=
+  match pLiteral s with
+  | some x => some x
+  | none => pNumber s
+
 mutual
   /-- one JSON value after optional whitespace (fuel: one unit per nesting step or element) -/
   def pValue : Nat → Text → Option (JV × Text)
     | 0, _ => none
     | f + 1, s =>
       match skipWs s with
-      | 34 :: r => match pString r with
-        | some (str, r') => some (.str str, r')
-        | none => none
-      | 91 :: r => match skipWs r with
-        | 93 :: r' => some (.list [], r')
-        | _ => pElems f r
-      | 123 :: r => match skipWs r with
-        | 125 :: r' => some (.dict [], r')
-        | _ => pMembers f r
-      | s' => match pLiteral s' with
-        | some x => some x
-        | none => pNumber s'
+      | [] => none
+      | c :: r =>
+        if c == 34 then
+          match pString r with
+          | some (str, r') => some (.str str, r')
+          | none => none
+        else if c == 91 then
+          match skipWs r with
+          | [] => none
+          | d :: r' => if d == 93 then some (.list [], r') else pElems f r
+        else if c == 123 then
+          match skipWs r with
+          | [] => none
+          | d :: r' => if d == 125 then some (.dict [], r') else pMembers f r
+        else pScalar (c :: r)
   /-- `value (, value)* ]` -/
   def pElems : Nat → Text → Option (JV × Text)
     | 0, _ => none
@@ -227,33 +239,43 @@ mutual
       | none => none
       | some (v, r) =>
         match skipWs r with
-        | 44 :: r' => match pElems f r' with
-          | some (.list vs, r'') => some (.list (v :: vs), r'')
-          | _ => none
-        | 93 :: r' => some (.list [v], r')
-        | _ => none
+        | [] => none
+        | d :: r' =>
+          if d == 44 then
+            match pElems f r' with
+            | some (.list vs, r'') => some (.list (v :: vs), r'')
+            | _ => none
+          else if d == 93 then some (.list [v], r')
+          else none
   /-- `"key" : value (, "key" : value)* }` -/
   def pMembers : Nat → Text → Option (JV × Text)
     | 0, _ => none
     | f + 1, s =>
       match skipWs s with
-      | 34 :: r =>
-        match pString r with
-        | none => none
-        | some (k, r1) =>
-          match skipWs r1 with
-          | 58 :: r2 =>
-            match pValue f r2 with
-            | none => none
-            | some (v, r3) =>
-              match skipWs r3 with
-              | 44 :: r4 => match pMembers f r4 with
-                | some (.dict kvs, r5) => some (.dict ((k, v) :: kvs), r5)
-                | _ => none
-              | 125 :: r4 => some (.dict [(k, v)], r4)
-              | _ => none
-          | _ => none
-      | _ => none
+      | [] => none
+      | q :: r =>
+        if q == 34 then
+          match pString r with
+          | none => none
+          | some (k, r1) =>
+            match skipWs r1 with
+            | [] => none
+            | col :: r2 =>
+              if col == 58 then
+                match pValue f r2 with
+                | none => none
+                | some (v, r3) =>
+                  match skipWs r3 with
+                  | [] => none
+                  | d :: r4 =>
+                    if d == 44 then
+                      match pMembers f r4 with
+                      | some (.dict kvs, r5) => some (.dict ((k, v) :: kvs), r5)
+                      | _ => none
+                    else if d == 125 then some (.dict [(k, v)], r4)
+                    else none
+              else none
+        else none
 end
 
 /-- `json.loads(text)`: `none` = `JSONDecodeError` -/
